@@ -557,6 +557,10 @@ func (w *Writer) Put(ref Reference, obj Object) error {
 	return nil
 }
 
+// maxObjStmMembers is the largest number of objects stored in one object
+// stream; it equals the limit on /N which the reader enforces in getObjStm.
+const maxObjStmMembers = 10000
+
 // WriteCompressed writes a number of objects to the file as a compressed
 // object stream.
 //
@@ -584,6 +588,16 @@ func (w *Writer) WriteCompressed(refs []Reference, objects ...Object) error {
 			}
 		}
 		return nil
+	}
+
+	// The reader refuses object streams with more than maxObjStmMembers
+	// objects: larger sets are split over several object streams.
+	for len(objects) > maxObjStmMembers {
+		err := w.WriteCompressed(refs[:maxObjStmMembers], objects[:maxObjStmMembers]...)
+		if err != nil {
+			return err
+		}
+		refs, objects = refs[maxObjStmMembers:], objects[maxObjStmMembers:]
 	}
 
 	sRef := w.Alloc()
